@@ -564,8 +564,11 @@ Inductive preq :=
 | PShed                                   (* writeFailureProbeLimit *)
 | POrdinary                               (* no failure state left: ordinary miss path *)
 | PFinished.                              (* leader returned *)
-(* generation: done?, the linked next generation (Generation.next) *)
-Record pgen := mk_pgen { g_done : bool; g_next : option N }.
+(* generation: done (DoneGeneration ran)?, the linked next generation (Generation.next),
+   timed out (the waitgroup's 15 s bound passed before DoneGeneration: Generation.Done() is
+   closed with DeadlineExceeded although the leader is still registered and in flight;
+   Err() keeps saying DeadlineExceeded when the leader finishes later)? *)
+Record pgen := mk_pgen { g_done : bool; g_next : option N; g_timed : bool }.
 Record pstate := mk_pstate {
   ps_fs : fstate;
   ps_group : option N;                    (* wg.groups[key] *)
@@ -575,9 +578,10 @@ Record pstate := mk_pstate {
 Inductive pact :=
 | AArrive (r : nat)                       (* lookup + retry key + JoinGeneration *)
 | AFinish (r : nat) (o : outcome)         (* the leader's write-back + DoneGeneration *)
-| AWake (r : nat).                        (* a follower whose generation is done: re-check, maybe Regroup *)
+| AWake (r : nat)                         (* a follower whose generation is done or timed out: re-check, maybe Regroup *)
+| ATimeout (g : N).                       (* the generation's deadline passes before its leader is done *)
 
-Definition gen_of (st : pstate) (g : N) : pgen := nth (N.to_nat g) (ps_gens st) (mk_pgen true None).
+Definition gen_of (st : pstate) (g : N) : pgen := nth (N.to_nat g) (ps_gens st) (mk_pgen true None false).
 Definition new_gen_id (st : pstate) : N := N.of_nat (length (ps_gens st)).
 
 Definition probe_step (st : pstate) (a : pact) : pstate :=
@@ -594,7 +598,7 @@ Definition probe_step (st : pstate) (a : pact) : pstate :=
               | Some g => mk_pstate (ps_fs st) (ps_group st) (ps_gens st) (set r (PFollower g 0)) (ps_elected st)
               | None =>
                   let g := new_gen_id st in
-                  mk_pstate (ps_fs st) (Some g) (ps_gens st ++ [mk_pgen false None]) (set r (PLeader g)) (ps_elected st + 1)
+                  mk_pstate (ps_fs st) (Some g) (ps_gens st ++ [mk_pgen false None false]) (set r (PLeader g)) (ps_elected st + 1)
               end
           end
       | _ => st
@@ -603,7 +607,7 @@ Definition probe_step (st : pstate) (a : pact) : pstate :=
       match nth_error (ps_reqs st) r with
       | Some (PLeader g) =>
           let fs := match o with OCovering => FActive | ONothing => ps_fs st | OCleared => FCleared end in
-          let gens := set_nth (ps_gens st) (N.to_nat g) (mk_pgen true (g_next (gen_of st g))) in
+          let gens := set_nth (ps_gens st) (N.to_nat g) (mk_pgen true (g_next (gen_of st g)) (g_timed (gen_of st g))) in
           let group := match ps_group st with Some g' => if (g' =? g)%N then None else Some g' | None => None end in
           mk_pstate fs group gens (set r PFinished) (ps_elected st)
       | _ => st
@@ -611,7 +615,14 @@ Definition probe_step (st : pstate) (a : pact) : pstate :=
   | AWake r =>
       match nth_error (ps_reqs st) r with
       | Some (PFollower g regs) =>
-          if negb (g_done (gen_of st g)) then st else
+          if negb (g_done (gen_of st g) || g_timed (gen_of st g)) then st else
+          if g_timed (gen_of st g) then
+            (* errors.Is(generation.Err(), DeadlineExceeded): an abandoned leader stays terminal for
+               its cohort — served if a covering failure is active by now, else shed; never
+               regrouped, never replaced, never sent downstream *)
+            mk_pstate (ps_fs st) (ps_group st) (ps_gens st)
+              (set r (match ps_fs st with FActive => PServed | _ => PShed end)) (ps_elected st)
+          else
           match ps_fs st with
           | FActive => mk_pstate (ps_fs st) (ps_group st) (ps_gens st) (set r PServed) (ps_elected st)
           | FCleared => mk_pstate (ps_fs st) (ps_group st) (ps_gens st) (set r POrdinary) (ps_elected st)
@@ -627,18 +638,24 @@ Definition probe_step (st : pstate) (a : pact) : pstate :=
                     | Some cur =>
                         if (cur =? g)%N then st     (* an unfinished previous generation: not reachable here (it is done) *)
                         else mk_pstate (ps_fs st) (ps_group st)
-                               (set_nth (ps_gens st) (N.to_nat g) (mk_pgen true (Some cur)))
+                               (set_nth (ps_gens st) (N.to_nat g) (mk_pgen true (Some cur) false))
                                (set r (PFollower cur (regs + 1))) (ps_elected st)
                     | None =>
                         let n := new_gen_id st in
                         mk_pstate (ps_fs st) (Some n)
-                          (set_nth (ps_gens st) (N.to_nat g) (mk_pgen true (Some n)) ++ [mk_pgen false None])
+                          (set_nth (ps_gens st) (N.to_nat g) (mk_pgen true (Some n) false) ++ [mk_pgen false None false])
                           (set r (PLeader n)) (ps_elected st + 1)
                     end
                 end
           end
       | _ => st
       end
+  | ATimeout g =>
+      if (N.to_nat g <? length (ps_gens st))%nat && negb (g_done (gen_of st g)) then
+        mk_pstate (ps_fs st) (ps_group st)
+          (set_nth (ps_gens st) (N.to_nat g) (mk_pgen false (g_next (gen_of st g)) true))
+          (ps_reqs st) (ps_elected st)
+      else st
   end.
 Definition probe_run (st : pstate) (sched : list pact) : pstate := fold_left probe_step sched st.
 Definition in_flight (st : pstate) : nat :=
